@@ -17,10 +17,12 @@ package main
 
 import (
 	"fmt"
+	"runtime"
 	"runtime/debug"
 	"sync"
 	"sync/atomic"
 	"syscall"
+	"time"
 	"unsafe"
 )
 
@@ -32,7 +34,8 @@ type Task struct {
 	rfd   int // tsan: task reads its resume byte here
 	wfd   int
 	ch    chan struct{} // plain: resume
-	state int32         // scheduler-owned: 0 new/runnable, 2 done
+	state int32         // scheduler-owned: 0 parked/runnable, 1 running, 2 done
+	goid  int64
 	// task-private:
 	yields  int
 	frames  []int // active API-call frame ids (pool monitor)
@@ -45,17 +48,20 @@ type Sim struct {
 	tasks    []*Task
 	cur      unsafe.Pointer // *Task; stored by scheduler, loaded by tasks
 	tsan     bool
-	yieldCh  chan byte // plain: task -> scheduler
+	yieldCh  chan byte // plain: task -> scheduler; message = id<<1 | (1 if done)
 	srfd     int       // tsan: scheduler reads here
 	swfd     int
 	steps    int
 	maxSteps int
 	wg       sync.WaitGroup
 	// reach statistics (scheduler-owned)
-	switches   int
-	siteCounts map[string]int // plain mode only
-	schedTrace []byte         // first picks, for distinct-schedule measure
-	lastPicked int
+	switches    int
+	siteCounts  map[string]int // plain mode only
+	schedTrace  []byte         // first picks, for distinct-schedule measure
+	lastPicked  int
+	stalled     bool
+	lockStalls  int
+	everStalled int32
 }
 
 func newSim(ch *Chooser, tsan bool, maxSteps int) *Sim {
@@ -121,16 +127,71 @@ func (t *Task) waitResume() {
 	}
 }
 
+// signal tells the scheduler that this task yields ('y') or is done ('d'). The
+// message carries the task id, because after a lock-under-yield recovery (see
+// Run) more than one task can be running.
 func (t *Task) signal(b byte) {
+	m := byte(t.id << 1)
+	if b == 'd' {
+		m |= 1
+	}
 	if t.sim.tsan {
-		rawWrite(t.sim.swfd, b)
+		rawWrite(t.sim.swfd, m)
 	} else {
-		t.sim.yieldCh <- b
+		t.sim.yieldCh <- m
+	}
+}
+
+// rawReadTimeout reads one byte, or returns ok=false after ms milliseconds.
+func rawReadTimeout(fd int, ms int) (byte, bool) {
+	type pollfd struct {
+		fd      int32
+		events  int16
+		revents int16
+	}
+	for {
+		p := pollfd{fd: int32(fd), events: 1} // POLLIN
+		n, _, e := syscall.Syscall(syscall.SYS_POLL, uintptr(unsafe.Pointer(&p)), 1, uintptr(ms))
+		if e == syscall.EINTR {
+			continue
+		}
+		if int(n) <= 0 {
+			return 0, false
+		}
+		return rawRead(fd), true
 	}
 }
 
 // Current returns the task that holds the baton, or nil outside Run.
-func (s *Sim) Current() *Task { return (*Task)(atomic.LoadPointer(&s.cur)) }
+func (s *Sim) Current() *Task {
+	t := (*Task)(atomic.LoadPointer(&s.cur))
+	if t == nil || atomic.LoadInt32(&s.everStalled) == 0 {
+		return t
+	}
+	// after a lock-under-yield recovery several tasks may be running: identify
+	// the caller by its goroutine id
+	g := goid()
+	for _, tt := range s.tasks {
+		if atomic.LoadInt64(&tt.goid) == g {
+			return tt
+		}
+	}
+	return nil
+}
+
+func goid() int64 {
+	var buf [64]byte
+	n := runtime.Stack(buf[:], false)
+	// "goroutine 123 [running]:"
+	var id int64
+	for _, c := range buf[10:n] {
+		if c < '0' || c > '9' {
+			break
+		}
+		id = id*10 + int64(c-'0')
+	}
+	return id
+}
 
 // Yield gives the baton back to the scheduler; a no-op when called from a
 // goroutine that is not the running task (e.g. the main goroutine in a solo
@@ -158,6 +219,7 @@ func (s *Sim) Run() {
 		go func(t *Task) {
 			defer s.wg.Done()
 			debug.SetPanicOnFault(true) // per goroutine: a read through an unmapped segment becomes a recoverable panic
+			atomic.StoreInt64(&t.goid, goid())
 			t.waitResume()
 			func() {
 				defer func() {
@@ -173,41 +235,72 @@ func (s *Sim) Run() {
 	}
 	live := len(s.tasks)
 	runnable := make([]*Task, 0, len(s.tasks))
+	running := 0 // normally 0 or 1; 2+ only after a lock-under-yield recovery
+	const stallMs = 3000
+	recv := func() (byte, bool) {
+		if s.tsan {
+			return rawReadTimeout(s.srfd, stallMs)
+		}
+		select {
+		case b := <-s.yieldCh:
+			return b, true
+		case <-time.After(stallMs * time.Millisecond):
+			return 0, false
+		}
+	}
 	for live > 0 {
-		runnable = runnable[:0]
-		for _, t := range s.tasks {
-			if t.state != 2 {
-				runnable = append(runnable, t)
+		if running == 0 || s.stalled {
+			runnable = runnable[:0]
+			for _, t := range s.tasks {
+				if t.state == 0 {
+					runnable = append(runnable, t)
+				}
 			}
+			if len(runnable) > 0 {
+				pick := 0
+				if s.steps < s.maxSteps {
+					pick = s.ch.Choose(len(runnable), "sched")
+				}
+				s.steps++
+				t := runnable[pick]
+				if t.id != s.lastPicked {
+					s.switches++
+					s.lastPicked = t.id
+				}
+				if len(s.schedTrace) < 16 {
+					s.schedTrace = append(s.schedTrace, byte('0'+t.id))
+				}
+				t.state = 1
+				running++
+				atomic.StorePointer(&s.cur, unsafe.Pointer(t))
+				if s.tsan {
+					rawWrite(t.wfd, 'r')
+				} else {
+					t.ch <- struct{}{}
+				}
+			}
+			s.stalled = false
 		}
-		pick := 0
-		if s.steps < s.maxSteps {
-			pick = s.ch.Choose(len(runnable), "sched")
+		m, ok := recv()
+		if !ok {
+			// The running task neither yielded nor finished for 3 s: it is blocked
+			// on a lock held by a parked task, i.e. the code under test reached a
+			// yield point while holding a lock (the hooks are placed so that the
+			// unchanged tree never does). Let another parked task run as well, so
+			// that the holder can release the lock; from here on this run is no
+			// longer strictly one-task-at-a-time (counted, not a verdict).
+			s.lockStalls++
+			s.stalled = true
+			atomic.StoreInt32(&s.everStalled, 1)
+			continue
 		}
-		s.steps++
-		t := runnable[pick]
-		if t.id != s.lastPicked {
-			s.switches++
-			s.lastPicked = t.id
-		}
-		if len(s.schedTrace) < 16 {
-			s.schedTrace = append(s.schedTrace, byte('0'+t.id))
-		}
-		atomic.StorePointer(&s.cur, unsafe.Pointer(t))
-		if s.tsan {
-			rawWrite(t.wfd, 'r')
-		} else {
-			t.ch <- struct{}{}
-		}
-		var b byte
-		if s.tsan {
-			b = rawRead(s.srfd)
-		} else {
-			b = <-s.yieldCh
-		}
-		if b == 'd' {
+		t := s.tasks[int(m>>1)]
+		running--
+		if m&1 == 1 {
 			t.state = 2
 			live--
+		} else {
+			t.state = 0
 		}
 	}
 	atomic.StorePointer(&s.cur, nil)
